@@ -116,24 +116,27 @@ Proof. exact ParseLogP.parse_never_null. Qed.
 Print Assumptions C07_parse_never_null.
 
 (* composed with C01's theorem for the classes Model/Results.v generates (sub-language op_ok with distinct Python
-   field names): a conformant response without duplicate object keys (jwf: what json parsing yields) is accepted, and
-   then parse runs on exactly its occurrences, never on null.  No evaluated guard: hereditary uniqueness is derived
-   from op_ok (Proofs/ParseLogObjP.v op_uniq). *)
-Theorem C07_uniq_op : forall C S frs fuel kind name sels root own pub' cls g fc j n,
+   field names; mx: the @mixin names used on the operation and its fields, none of them a generated class - mx_ok):
+   a conformant response without duplicate object keys (jwf: what json parsing yields) is accepted, and then parse
+   runs on exactly its occurrences, never on null.  No evaluated guard: hereditary uniqueness is derived from op_ok
+   (Proofs/ParseLogObjP.v op_uniq). *)
+Theorem C07_uniq_op : forall C S frs fuel kind name mixins sels root own pub' cls g mx fc j n,
   Results.root_type_name S kind = Results.Ok root ->
-  Results.op_parse fuel C S frs kind name [] sels = Results.Ok (own, pub', false) ->
-  Results.all_classes fuel C S frs (Results.DOp kind name [] sels) = Results.Ok cls ->
-  ResultsObjP.op_ok g true C S frs root sels = true -> ResultsRunP.no_basemodel own = true ->
+  Results.op_parse fuel C S frs kind name mixins sels = Results.Ok (own, pub', false) ->
+  Results.all_classes fuel C S frs (Results.DOp kind name mixins sels) = Results.Ok cls ->
+  ResultsObjP.op_ok g true C S frs mx mixins root sels = true -> ResultsRunP.mx_ok cls mx = true ->
+  ResultsRunP.no_basemodel own = true ->
   Exec.conf_op fc S frs root sels j = true -> ResultsObjP.jwf j = true -> n >= fuel + 2 ->
   ParseLog.uniq n cls (Ann.AClass (Results.pascal_s name)) j = true.
 Proof. exact ParseLogObjP.op_uniq. Qed.
 Print Assumptions C07_uniq_op.
 
-Theorem C07_parse_once_op : forall C S frs fuel kind name sels root own pub' cls g fc j n,
+Theorem C07_parse_once_op : forall C S frs fuel kind name mixins sels root own pub' cls g mx fc j n,
   Results.root_type_name S kind = Results.Ok root ->
-  Results.op_parse fuel C S frs kind name [] sels = Results.Ok (own, pub', false) ->
-  Results.all_classes fuel C S frs (Results.DOp kind name [] sels) = Results.Ok cls ->
-  ResultsObjP.op_ok g true C S frs root sels = true -> ResultsRunP.no_basemodel own = true ->
+  Results.op_parse fuel C S frs kind name mixins sels = Results.Ok (own, pub', false) ->
+  Results.all_classes fuel C S frs (Results.DOp kind name mixins sels) = Results.Ok cls ->
+  ResultsObjP.op_ok g true C S frs mx mixins root sels = true -> ResultsRunP.mx_ok cls mx = true ->
+  ResultsRunP.no_basemodel own = true ->
   Exec.conf_op fc S frs root sels j = true -> ResultsObjP.jwf j = true -> n >= fuel + 2 ->
   Pydantic.accepts n cls (Results.schema_enums S) (Ann.AClass (Results.pascal_s name)) j = true /\
   Permutation (ParseLog.plog n cls (Ann.AClass (Results.pascal_s name)) j)
